@@ -355,6 +355,58 @@ def content_terminals(ctx):
                 ctx.note_inconclusive(f"content terminal {rule}")
 
 
+def comment_content(ctx, tier):
+    """blanks inside comments are content: (1) z3: the real comment_text terminal matches EVERY text without CR / LF / NUL
+    completely (so the grammar hands the visitor the whole rest of the line); (2) the visitor side over a product of
+    content choice points - blank runs before, between and after up to two visible characters, REM and apostrophe, alone
+    and after a statement, every line end: the emitted comment is `(*` + the source text + ` *)`, byte for byte"""
+    from coco.b09.grammar import grammar
+
+    pat = grammar["comment_text"].re.pattern
+    t = z3.String("comment")
+    allowed = z3.Star(z3.Union(z3.Range(chr(1), chr(9)), z3.Range(chr(11), chr(12)), z3.Range(chr(14), chr(126))))
+    ctx.stats["obligations"] += 1
+    v, m = smt.check([z3.InRe(t, allowed), z3.Not(z3.InRe(t, rxsmt.lang(pat))), z3.Length(t) <= 6], 20000, True)
+    ctx.stats[v] += 1
+    ctx.sample({"lemma": "comment_text matches every text without CR / LF / NUL completely", "verdict": v})
+    if v == "sat":
+        val = rxsmt.z3str(m.eval(t, True).as_string())
+        a = convert_concrete(f"10 REM{val}\n")
+        ctx.stats["traces_validated_against_impl"] += 1
+        if a != ("ok", f"10 (*{val} *)\n"):
+            ctx.violation("comment-content:terminal", f"comment_text does not match {val!r} completely: `10 REM{val}` -> {str(a)[:80]}", {"baseline": f"10 REM{val}\n", "layout": f"10 REM{val}\n"})
+    elif v == "unknown":
+        ctx.note_inconclusive("comment_text language lemma")
+    B = ("", " ", "   ")
+    vis1 = ("", "X", "*", "-", "1") if tier == "thorough" else ("", "X", "*")
+    vis2 = ("", "Y", '"') if tier == "thorough" else ("", "Y")
+    carriers = (("10 {k}{c}", "10 (*{c} *)"), ("10 A=1 {k}{c}", "10 A := 1.0\n(*{c} *)"), ("10 A=1:{k}{c}\n20 B=2", "10 A := 1.0\n(*{c} *)\n20 B := 2.0"))
+    bad = {}
+    n = 0
+    for (src, want), kw, b1, c1, b2, c2, b3, eol in itertools.product(carriers, ("REM", "'"), B, vis1, B, vis2, B, ("\n", "\r\n", "")):
+        if src.startswith("10 {k}") is False and kw == "REM" and "A=1 {k}" in src:
+            pass
+        text = b1 + c1 + b2 + c2 + b3
+        if kw == "REM" and text[:1].isalnum():
+            continue  # REMX is read as REM + X by the tool and as a name by Color BASIC: not a layout question
+        n += 1
+        program = src.format(k=kw, c=text) + eol
+        got = convert_concrete(program)
+        exp = ("ok", want.format(c=text) + "\n")
+        ctx.stats["obligations"] += 1
+        if got == exp:
+            ctx.stats["identity"] += 1
+            continue
+        kind = "blank-only" if text.strip(" ") == "" and text else "empty" if not text else "leading-blanks" if got[0] == "ok" and text.lstrip(" ") in got[1] and text not in got[1] else "other"
+        key = f"comment-content:{kind}:{'rejected' if got[0] != 'ok' else 'changed'}"
+        bad.setdefault(key, (program, got, exp))
+    ctx.stats["programs"] += n
+    ctx.stats["traces_validated_against_impl"] += n
+    for key, (program, got, exp) in bad.items():
+        ctx.violation(key, f"{program!r} -> {str(got)[:90]}; the comment text is content and must come out as {exp[1]!r}", {"baseline": program, "layout": program, "expected": exp[1]})
+    ctx.bounds["comment_content"] = {"blank_runs": list(B), "visible": [list(vis1), list(vis2)], "programs": n}
+
+
 def run(tier):
     ctx = Ctx("C08", tier, "model_checking", technique="real parsimonious grammar and visitor executed on text with symbolic layout choice points (lazy forking on match-result dependence), z3-checked partition of the layout space, replay through the unpatched parser; z3 regex lemmas for content terminals")
     smt.reset_stats()
@@ -382,6 +434,7 @@ def run(tier):
         ctx.sample({"skeleton": r["label"][:80], "choice_points": r["cps"], "layouts": r["layouts"], "paths": r["paths"], "status": r["status"]})
     ctx.extra["layouts_covered"] = str(total_layouts)
     content_terminals(ctx)
+    comment_content(ctx, tier)
     ctx.add_solver_stats(smt.STATS.export())
     ctx.extra["solver"] = {"z3": smt.z3_version()}
     ctx.assume("layout = blanks between tokens, PRINT spelling, line ends, trailing NUL, blanks inside numeric / hex literals; longer blank runs, tabs and blanks inside content are outside")
@@ -391,4 +444,6 @@ def run(tier):
 def replay(rec):
     a, b = convert_concrete(rec["baseline"]), convert_concrete(rec["layout"])
     print(a, b)
+    if "expected" in rec:
+        return a != ("ok", rec["expected"])
     return a != b
